@@ -36,6 +36,15 @@ CLAIMED = {
             "stub branch / tree / graph objects with symbolic revno and symbolic revision ids. Commit-then-uncommit on a real "
             "tree and tag removal (src/uncommit.rs) are outside.",
             "branch, master, working tree and graph are interface stubs; history = left-hand chain with <= 2 merges per revision"),
+    "C17": ("three-way laws for name / directory and executable bit (kernels)",
+            "The real Merge3Merger._merge_names and _merge_executable (with the real _three_way as resolver) over a stub "
+            "transform: the name and directory of an entry in BASE / OTHER / THIS are SYMBOLIC comparators. OTHER = BASE "
+            "leaves THIS alone, THIS = BASE takes OTHER's value, identical changes do nothing and never conflict, changes "
+            "of different attributes by the two sides are both applied (union), different changes of the same attribute "
+            "are recorded as one path conflict describing both sides; same for the executable bit incl. file status and "
+            "final kind. Contents / kinds (_do_merge_contents), entry enumeration over real trees, LCA / weave merge types "
+            "and entries missing from a tree are outside.",
+            "trees and transform are recording stubs; the entry exists in all three trees"),
     "C18": ("merge decision rules",
             "Full property for Merge3Merger._three_way and _lca_multi_way: values are unbounded integers standing for "
             "arbitrary hashable values, <= 4/6 LCAs, both allow_overriding_lca settings.",
@@ -207,7 +216,6 @@ NOT_APPLICABLE = {
     "C12": "outcomes are file-system contents after revert/merge/remove through TreeTransform and dirstate; no symbolic-input kernel",
     "C14": "compares a preview tree with a real applied working tree (inventory + file system); inputs are operation sequences",
     "C15": "composition of TreeTransform, merge and shelf serialisation (pack container + bencode, compiled) on a real working tree",
-    "C17": "tree-level merges need real trees, TreeTransform and the compiled merge3/patiencediff matcher; the per-attribute decision rules are decided under C18",
     "C19": "the decision goes through merge3.Merge3 with patiencediff.PatienceSequenceMatcher (compiled, hashes lines), so file lines cannot be symbolic",
     "C20": "persistence is rio.Stanza (Rust) on a real tree; selection is hash-set membership over concrete paths plus osutils.is_inside_any (Rust)",
     "C22": "dotted revnos come from vcsgraph merge-sort (compiled) over DAG structure; specifier resolution needs a real branch",
